@@ -2,11 +2,12 @@
    case   = [fs, cfgs, ops]
    cfgs   = [[ [style, attrs]... ], [ [attrs, pen, [color, bgcolor, underline, strike, blink, reverse]]... ]] ...
             (the six flags say which fields of the Attrs tuple are truthy)
-   op     = [0, cfg, done, W, H, screen] | [1] (erase) | [2] (reset)
+   op     = [0, cfg, done, W, H, screen, needs_mouse, cursor_shape] | [1] (erase) | [2] (reset)
+            (cursor_shape = the parameter n of ESC[n q, 0 = CursorShape._NEVER_CHANGE)
    screen = [height, show_cursor, cur_x, cur_y, [[y, [[x, chars, style, width]...]]...], [[y, x, id]...]]
    result = [[tokens, terminal dump] for the constructor and for every op] *)
 From Coq Require Import ZArith List Bool.
-From PTK Require Import Lib.Sx Lib.Py Model.C06_Terminal Model.C06_Renderer.
+From PTK Require Import Lib.Sx Lib.Py Model.C06_Terminal Model.C06_Renderer Model.C06_Modes.
 Import ListNotations.
 Open Scope Z_scope.
 
@@ -39,13 +40,13 @@ Definition dec_screen (s : sx) : option screen :=
   | _ => None
   end.
 
-Definition dec_op (s : sx) : option op :=
+Definition dec_op (s : sx) : option mop :=
   match s with
-  | L [A 0; A cfg; d; A W; A H; scr] =>
-      bind (as_bool d) (fun db => bind (dec_screen scr) (fun sc =>
-      if (1 <=? W) && (0 <=? H) then Some (ORender cfg db W H sc) else None))
-  | L [A 1] => Some OErase
-  | L [A 2] => Some OReset
+  | L [A 0; A cfg; d; A W; A H; scr; nm; A shape] =>
+      bind (as_bool d) (fun db => bind (dec_screen scr) (fun sc => bind (as_bool nm) (fun nmb =>
+      if (1 <=? W) && (0 <=? H) && (0 <=? shape) && (shape <=? 6) then Some (MRender cfg db W H sc nmb shape) else None)))
+  | L [A 1] => Some MErase
+  | L [A 2] => Some MReset
   | _ => None
   end.
 
@@ -83,18 +84,18 @@ Definition dec_cfg (s : sx) : option tabs :=
 
 Definition tabs0 : tabs := mkt (fun _ => 0) (fun _ => 0) (fun _ => false).
 
-Definition op_H (o : op) : Z := match o with ORender _ _ _ H _ => H | _ => 0 end.
+Definition op_H (o : mop) : Z := match o with MRender _ _ _ H _ _ _ => H | _ => 0 end.
 
-Fixpoint run_ops (tbs : Z -> tabs) (fs : bool) (nrows : Z) (r : rst) (t : term * Z) (curW curB : Z) (ops : list op)
+Fixpoint run_ops (tbs : Z -> tabs) (fs : bool) (nrows : Z) (r : mst) (t : term * Z) (curW curB : Z) (ops : list mop)
   : list sx :=
   match ops with
   | [] => []
   | o :: rest =>
-      let '(r', ks) := r_step tbs fs r o in
-      let W := op_width curW o in
-      let B := match o with ORender _ _ _ H _ => H | _ => curB end in
+      let '(r', ks) := m_step tbs fs r o in
+      let W := op_width curW (core_op o) in
+      let B := match o with MRender _ _ _ H _ _ _ => H | _ => curB end in
       let '(t1, n1) := trunB B W t ks in
-      let t' := if op_shifts o then tshift t1 (cy t1) else t1 in
+      let t' := if op_shifts (core_op o) then tshift t1 (cy t1) else t1 in
       L [sx_toks ks; dump t' n1 W nrows] :: run_ops tbs fs nrows r' (t', n1) W B rest
   end.
 
@@ -107,7 +108,7 @@ Definition run_C06 (s : sx) : sx :=
       | Some fs, Some cs, Some os =>
           let tbs := fun c => nth (Z.to_nat c) cs tabs0 in
           let nrows := fold_left (fun m o => Z.max m (op_H o)) os 0 + 2 in
-          let '(r0, k0) := r_new in
+          let '(r0, k0) := m_new in
           let t0 := trun 1 term0 k0 in
           L (L [sx_toks k0; dump t0 0 1 nrows] :: run_ops tbs fs nrows r0 (t0, 0) 1 big os)
       | _, _, _ => bad_case
